@@ -30,17 +30,28 @@ Proof.
   destruct (guarded r); destruct (run_req (h_pid h) r k); reflexivity.
 Qed.
 
+Lemma pl_absent pid l k : kget pid k = None -> pl_cpu_affinity_set pid l k = (Exc NoSuchProcess, k).
+Proof.
+  intros Hg.
+  assert (D : forall l' b, diagnose pid l' b k = Exc NoSuchProcess).
+  { intros l' b. unfold diagnose, get_eligible_cpus. rewrite Hg. reflexivity. }
+  unfold pl_cpu_affinity_set, sys_sched_setaffinity. rewrite Hg.
+  destruct (c_build_set l) as [s|e|] eqn:E; [reflexivity| |].
+  - unfold c_build_set in E. repeat match type of E with (if ?b then _ else _) = _ => destruct b end; try discriminate;
+      injection E as <-; rewrite D; reflexivity.
+  - unfold c_build_set in E. repeat match type of E with (if ?b then _ else _) = _ => destruct b end; discriminate.
+Qed.
+
 (* nobody under the pid: whatever a call does, the kernel state stays as it was *)
 Lemma run_req_absent pid r k : kget pid k = None -> snd (run_req pid r k) = k.
 Proof.
-  intros Hg. destruct r as [v|c v|cpus|res lim|res sv]; unfold run_req.
+  intros Hg. destruct r as [v|c v|cpus|sh items|res lim|res sv]; unfold run_req.
   - unfold nice, c_setpriority, sys_setpriority. rewrite Hg. destruct v as [v|]; [|reflexivity]. destruct (fits_int v); reflexivity.
   - unfold ionice, ionice_set, c_ioprio_set, sys_ioprio_set. rewrite Hg.
     destruct c as [c|]; [|destruct v; reflexivity].
     repeat match goal with |- context [if ?b then _ else _] => destruct b end; reflexivity.
-  - unfold cpu_affinity. destruct cpus as [[|c cs]|]; [| |reflexivity];
-      unfold pl_cpu_affinity_set, sys_sched_setaffinity; rewrite Hg;
-      match goal with |- context [c_build_set ?l] => destruct (c_build_set l) as [s|e|] end; try reflexivity; destruct e; reflexivity.
+  - unfold cpu_affinity. destruct cpus as [[|c cs]|]; [| |reflexivity]; rewrite (pl_absent _ _ _ Hg); reflexivity.
+  - unfold cpu_affinity_it. destruct (negb (truthy _)); [|destruct (iterate _)]; rewrite (pl_absent _ _ _ Hg); reflexivity.
   - unfold rlimit, py_prlimit, sys_prlimit_get, sys_prlimit_set. rewrite Hg.
     destruct (pid =? 0); [reflexivity|]. destruct lim as [l|].
     + destruct (negb (length l =? 2)%nat); [reflexivity|].
@@ -62,20 +73,16 @@ Qed.
 (* ... and nice / cpu_affinity answer NoSuchProcess (the other two may object to their arguments first) *)
 Theorem gone_nosuchprocess h k : kget (h_pid h) k = None ->
   (forall v, fits_int v = true -> fst (fst (fst (hcall h None (Nice (Some v)) k))) = Exc NoSuchProcess)
-  /\ (forall cpus, fst (fst (fst (hcall h None (Affinity (Some cpus)) k))) = Exc NoSuchProcess).
+  /\ (forall cpus, fst (fst (fst (hcall h None (Affinity (Some cpus)) k))) = Exc NoSuchProcess)
+  /\ (forall sh items, fst (fst (fst (hcall h None (AffinityIt sh items) k))) = Exc NoSuchProcess).
 Proof.
-  intros Hg. split.
+  intros Hg. split; [|split].
   - intros v Hv. unfold hcall. cbn [guarded]. destruct (guard h None) as [raises h']. destruct raises; [reflexivity|].
     unfold run_req, nice, c_setpriority, sys_setpriority. rewrite Hv, Hg. reflexivity.
   - intros cpus. unfold hcall. cbn [guarded]. destruct (guard h None) as [raises h']. destruct raises; [reflexivity|].
-    assert (D : forall l b, diagnose (h_pid h) l b k = Exc NoSuchProcess).
-    { intros l b. unfold diagnose, get_eligible_cpus. rewrite Hg. reflexivity. }
-    unfold run_req, cpu_affinity. destruct cpus as [|c cs];
-      unfold pl_cpu_affinity_set, sys_sched_setaffinity; rewrite Hg;
-      match goal with |- context [c_build_set ?l] => destruct (c_build_set l) as [s|e|] eqn:E end;
-      try reflexivity; unfold c_build_set in E;
-      repeat match type of E with (if ?b then _ else _) = _ => destruct b end; try discriminate;
-      injection E as <-; rewrite D; reflexivity.
+    unfold run_req, cpu_affinity. destruct cpus as [|c cs]; rewrite (pl_absent _ _ _ Hg); reflexivity.
+  - intros sh items. unfold hcall. cbn [guarded]. destruct (guard h None) as [raises h']. destruct raises; [reflexivity|].
+    unfold run_req, cpu_affinity_it. destruct (negb (truthy _)); [|destruct (iterate _)]; rewrite (pl_absent _ _ _ Hg); reflexivity.
 Qed.
 
 (* the specification used as the oracle for handle histories is met by the model *)
@@ -93,10 +100,12 @@ Proof.
     + apply Z.eqb_neq in E. destruct (guarded r) eqn:Gd; [|discriminate]. intros [= <-].
       destruct (recycled_no_syscall h st r k Gd E) as [h' ->]. reflexivity.
   - specialize (Hnone eq_refl). destruct (guarded r) eqn:Gd; [|discriminate].
-    destruct (gone_nosuchprocess h k Hnone) as [N A]. pose proof (gone_nothing_changes h r k Hnone) as U.
-    destruct r as [[v|]|c v|[cpus|]|res lim|res sv]; try discriminate.
+    destruct (gone_nosuchprocess h k Hnone) as [N [A AI]]. pose proof (gone_nothing_changes h r k Hnone) as U.
+    destruct r as [[v|]|c v|[cpus|]|sh items|res lim|res sv]; try discriminate.
     + destruct (fits_int v) eqn:F; [|discriminate]. intros [= <-]. specialize (N v F).
       destruct (hcall h None (Nice (Some v)) k) as [[[o k'] h'] b]. cbn [fst snd] in *. subst. reflexivity.
     + intros [= <-]. specialize (A cpus).
       destruct (hcall h None (Affinity (Some cpus)) k) as [[[o k'] h'] b]. cbn [fst snd] in *. subst. reflexivity.
+    + intros [= <-]. specialize (AI sh items).
+      destruct (hcall h None (AffinityIt sh items) k) as [[[o k'] h'] b]. cbn [fst snd] in *. subst. reflexivity.
 Qed.
